@@ -157,7 +157,7 @@ POOLS = {
                         "my reports"],
     "default_format": ["plain", "progress", "pretty", "json", "progress3", "null"],
     "scenario_outline_annotation_schema": [u"{name} -- @{row.id}", u"{name} [{examples.name}:{row.index}]",
-                                           u"{name} -*- {row.id}", u"<{row.id}> {name}"],
+                                           u"{name} -*- {row.id}", u"<{row.id}> {name}", u"{name} 100% (@{row.id})"],
     "logging_level": sorted(LOG_LEVELS),
     "logging_format": ["%(levelname)s:%(message)s", "%(asctime)s %(name)s %(message)s", "LOG %(message)s",
                        "plain text"],
@@ -517,7 +517,14 @@ def render_ini(f):
                 lines.append(d + eq + v[0])
                 lines += [indent + x for x in v[1:]]
         else:
-            lines.append(d + eq + str(v))
+            text = str(v)
+            if d not in RAW_INI:
+                text = text.replace("%", "%%")          # ini interpolation is on: a literal per cent sign is doubled
+            if o.get("interp") and d not in RAW_INI:
+                # the value is written once under a helper key and referred to with %(key)s
+                lines.append("vf_%s%s%s" % (d, eq, text))
+                text = "%%(vf_%s)s" % d
+            lines.append(d + eq + text)
         if style & 4:
             lines.append("# -- a comment line")
     if f["ud"]:
@@ -1102,6 +1109,11 @@ def _labels(res, case, exp, fv, cv):
             res.label("file-userdata")
         if any(o.get("lead") for o in f["opts"]):
             res.label("list-on-new-lines")
+        if f["name"] != TOML_NAME and any(o.get("interp") for o in f["opts"]):
+            res.label("ini:interpolation")
+        if f["name"] != TOML_NAME and any(isinstance(o["v"], str) and "%" in o["v"] and o["d"] not in RAW_INI
+                                           for o in f["opts"]):
+            res.label("ini:escaped-per-cent")
     for d in fv:
         if d in BOOLS and d in cv:
             res.label("bool-both")
@@ -1262,6 +1274,8 @@ def case_st(draw, toml_ok=True, focus="options"):
         opt = {"d": d, "v": fvals[d]}
         if d in BOOLS:
             opt["w"] = draw(st.integers(0, 3))
+        elif isinstance(fvals[d], str) and d not in RAW_INI and draw(st.integers(0, 3)) == 0:
+            opt["interp"] = True
         files[index % len(files)]["opts"].append(opt)
     if files and (focus == "userdata" or draw(st.integers(0, 3)) == 0):
         files[draw(st.integers(0, len(files) - 1))]["ud"] = draw(ud_file_st(4 if focus == "userdata" else 2))
@@ -1420,7 +1434,8 @@ def required_labels(tier):
               "bool-both", "append-both", "home-relative-path", "outfile-filled", "tags-replace", "placeholder",
               "paths-replace", "coupling:wip", "coupling:quiet", "coupling:junit", "coupling:steps_catalog",
               "define", "define:lone-quote", "userdata-override", "file-userdata", "getter:default",
-              "getter:ValueError", "getter:converted", "list-on-new-lines", "all-defaults"]
+              "getter:ValueError", "getter:converted", "list-on-new-lines", "all-defaults", "ini:interpolation",
+              "ini:escaped-per-cent"]
     if toml_available():
         labels.append("file:" + TOML_NAME)
     return labels
